@@ -115,6 +115,7 @@ def _do_ops(aid, tid, script, mem, cached, cachedcb):
 def actor_main(root, aid, scripts, to_ctl, from_ctl, seed, compress):
     from joblib import Memory, expires_after
     warnings.simplefilter("ignore")
+    __import__("logging").disable(50)
     plan = simfs.RemotePlan(root, aid, to_ctl, from_ctl, seed)
     simfs.install(plan)
     simfs.Clock(1.7e9).install(on_sleep=lambda d: plan.point("sleep", root + "/cache"))
@@ -176,6 +177,7 @@ def run_case(case):
             def pre():
                 from joblib import Memory
                 warnings.simplefilter("ignore")
+                __import__("logging").disable(50)
                 vmod = simfs.load_module(root)
                 vmod.ACTOR = 5
                 simfs.Clock(1.7e9 - 10).install()
@@ -269,6 +271,7 @@ def run_case(case):
         interleaved_inside = 0
         transient = None; checks = [0]
         warnings.simplefilter("ignore")
+        __import__("logging").disable(50)
         while True:
             live = [k for k, e in sorted(ents.items()) if not e["done"] and e["parked"] is not None]
             if not live:
@@ -394,6 +397,7 @@ def run_case(case):
             # quiescence: every visible output.pkl is one complete, correct result
             def final():
                 warnings.simplefilter("ignore")
+                __import__("logging").disable(50)
                 bad = []
                 for dp, dn, fns in os.walk(os.path.join(root, "cache")):
                     if "output.pkl" in fns:
